@@ -6,6 +6,7 @@ pub mod c01;
 pub mod c02;
 pub mod c03;
 pub mod c04;
+pub mod c05;
 pub mod c06;
 pub mod c07;
 pub mod c08;
@@ -14,6 +15,7 @@ pub mod c12;
 pub mod c13;
 pub mod c14;
 pub mod c15;
+pub mod c16;
 pub mod c17;
 pub mod c18;
 pub mod c19;
@@ -24,6 +26,7 @@ pub fn dispatch(id: &str, run: &Arc<Run>) -> bool {
         "C02" => c02::run(run),
         "C03" => c03::run(run),
         "C04" => c04::run(run),
+        "C05" => c05::run(run),
         "C06" => c06::run(run),
         "C07" => c07::run(run),
         "C08" => c08::run(run),
@@ -31,6 +34,7 @@ pub fn dispatch(id: &str, run: &Arc<Run>) -> bool {
         "C13" => c13::run(run),
         "C14" => c14::run(run),
         "C15" => c15::run(run),
+        "C16" => c16::run(run),
         "C17" => c17::run(run),
         "C18" => c18::run(run),
         "C19" => c19::run(run),
